@@ -1,13 +1,13 @@
 package main
 
 import (
-	"time"
-	"sync/atomic"
 	"fmt"
 	"path/filepath"
 	"reflect"
 	"sort"
 	"strings"
+	"sync/atomic"
+	"time"
 
 	"github.com/xujiajun/nutsdb"
 	"github.com/xujiajun/nutsdb/ds/zset"
